@@ -593,7 +593,7 @@ def view_for(w):
 
 
 SCHEDULES = ['once', 'twice', 'parts-first', 'parts-last', 'view-first', 'foreign-first', 'copy', 'attributes',
-             'edit-result']
+             'edit-result', 'view-forms']
 
 
 def edit_leaves_of(state):
@@ -733,6 +733,32 @@ def run_schedule(w, route, t, sched):
             E(R[0], c1, 0, 'copy-again')
             for pt, ps, role in op_parts:
                 E(pt, ps, 0, role + '-after-copy')
+        elif sched == 'view-forms':
+            # the same numbers as a LIST view (rows 0 and 1) and as a TUPLE view (one element) mean different things
+            # to numpy; asked of one selection object in both orders, each form must get the same answer as when it
+            # is asked first of a fresh object (no expectation about view semantics is needed: that is C04)
+            if w.nd < 2:
+                return fails
+
+            def obs_of(state, view):
+                r = evaluate(state, w.d, view)
+                if isinstance(r, str):
+                    return r
+                r = np.asarray(r)
+                return [str(r.dtype), list(r.shape), r.astype(int).tolist()]
+            lv, tv = [0, 1], (0, 1)
+            l_first = obs_of(R[1], lv)
+            t_second = obs_of(R[1], tv)
+            root2 = build(w, route, t)
+            try:
+                t_first = obs_of(root2.state, tv)
+                l_second = obs_of(root2.state, lv)
+            finally:
+                teardown(w, root2, route)
+            if l_first != l_second:
+                fails.append(('mask', 'list-view-after-tuple-view', 0, l_second, l_first))
+            if t_first != t_second:
+                fails.append(('mask', 'tuple-view-after-list-view', 0, t_second, t_first))
         elif sched == 'edit-result':
             # the COMBINATION (and a copy of it) is edited in place afterwards; the selections it was built from
             # are somebody else's objects and must keep selecting what they selected
@@ -1039,7 +1065,7 @@ def schedules_for(route, t):
     if route != 'state':
         return ['once', 'parts-last']
     if depth_of(t) >= 3:
-        return ['once', 'parts-first', 'parts-last', 'copy', 'edit-result']
+        return ['once', 'parts-first', 'parts-last', 'copy', 'edit-result', 'view-forms']
     return SCHEDULES
 
 
